@@ -1212,32 +1212,63 @@ GMD = 'moPepGen/seqvar/GVFMetadata.py'
 
 
 class _MetaHandle13:
-    """a text file positioned at its start whose first lines are `lines` (each ends with a line break), followed by the column header"""
-    def __init__(self, lines):
+    """a text file positioned at its start whose first lines are `lines` (each ends with a line break), followed by the column header.
+    tell() is the byte offset of the line the cursor is at (an uninterpreted increasing function of the line number: a character may take
+    several bytes, so it is not the number of characters read); seek() must be given such an offset"""
+    def __init__(self, I, lines):
         self.lines, self.pos, self.log = list(lines), 0, []
+        self.offset = z3.Function('byte_offset_of_line', I_, I_)
+        self.chars = z3.Function('characters_in_line', I_, I_)
+        I.e.assume(self.offset(0) == 0)
+        for j in range(len(self.lines)):
+            # a line of c characters takes at least c bytes
+            I.e.assume(z3.And(self.chars(j) >= 1, self.offset(j + 1) >= self.offset(j) + self.chars(j)))
 
     def sym_method(self, I, name, a, kw):
         if name == 'tell':
-            return ('pos', self.pos)
+            return self.offset(min(self.pos, len(self.lines)))
         if name == 'readline':
             ln = self.lines[self.pos] if self.pos < len(self.lines) else ''
             self.pos += 1
             return ln
-        if name == 'seek' and len(a) == 1 and isinstance(a[0], tuple) and a[0][0] == 'pos':
-            self.pos = a[0][1]
-            self.log.append(('seek', a[0][1]))
+        if name == 'seek' and len(a) == 1:
+            self.log.append(('seek', a[0]))
             return None
         raise Unsupported(f'handle.{name}')
+
+    def line_length(self, v):
+        for j, ln in enumerate(self.lines):
+            if v is ln:
+                return self.chars(j)
+        return None
+
+
+def _meta_len_model(c):
+    def inst(reg):
+        def len_(I, a, k):
+            h = c._cur.handle
+            n = h.line_length(a[0]) if a else None
+            if n is not None:
+                return n
+            if a and isinstance(a[0], (list, tuple, dict, str, set)):
+                return len(a[0])
+            raise Unsupported('len() of this value inside GVFMetadata.py')
+        reg.global_(GMD, 'len', Builtin('len', len_))
+    return inst
 
 
 class _MetaRoundTrip(Contract):
     """GVFMetadata.parse(handle) on the lines GVFMetadata.to_strings() wrote (followed by the column header) gives back the parser, source, chromosome
     description, moPepGen version and the three reference paths (None for one that was not given), a metadata object that writes the identical lines
-    again (INFO table included), and leaves the handle at the first
+    again (INFO table included), and leaves the handle at the byte offset of the first
     line that is not metadata"""
     path, qualname, props = GMD, 'GVFMetadata.parse', ('C13',)
-    models = (install_text,)
     kind = 'with-reference-paths'
+
+    @property
+    def models(self):
+        return (install_text, _meta_len_model(self))
+
     assumptions = ('assumed: parser name, source, version and paths contain no line break, and no = , < > quote at their ends (structured strings, pyvc/sstr.py); '
                    'the INFO table is the Base table of the package',)
 
@@ -1257,7 +1288,7 @@ class _MetaRoundTrip(Contract):
         lines = I.call_method(st.meta, 'to_strings', [], {})
         st.n_lines = len(lines)
         st.lines = list(lines)
-        st.handle = _MetaHandle13([sstr.build(sstr.flat(ln) + ['\n']) for ln in lines] + ['#CHROM\tPOS\tID\tREF\tALT\tQUAL\tFILTER\tINFO\n'])
+        st.handle = _MetaHandle13(I, [sstr.build(sstr.flat(ln) + ['\n']) for ln in lines] + ['#CHROM\tPOS\tID\tREF\tALT\tQUAL\tFILTER\tINFO\n'])
         st.args = [ClassRef('GVFMetadata', I.repo.get_class('GVFMetadata')), st.handle]
         self._cur = st
         return st
@@ -1271,7 +1302,9 @@ class _MetaRoundTrip(Contract):
         lines2 = I.call_method(ret, 'to_strings', [], {})
         same = len(lines2) == len(st.lines) and all(as_bool(text_eq(I, a, b)) is True or z3.is_true(z3.simplify(as_bool(text_eq(I, a, b)))) for a, b in zip(st.lines, lines2))
         e.prove(f'C13/metadata/{self.kind}/the-metadata-read-back-writes-the-identical-lines', z3.BoolVal(bool(same)))
-        e.prove(f'C13/metadata/{self.kind}/handle-left-at-the-column-header', z3.BoolVal(st.handle.pos == st.n_lines))
+        seeks = [x[1] for x in st.handle.log if x[0] == 'seek']
+        e.prove(f'C13/metadata/{self.kind}/handle-left-at-the-byte-offset-of-the-column-header',
+                seeks[-1] == st.handle.offset(st.n_lines) if seeks and (is_z3(seeks[-1]) or isinstance(seeks[-1], int)) else z3.BoolVal(False))
 
     def post_raise(self, I, st, exc):
         I.e.note(f'raised {exc.cls} {getattr(exc, "args", None)!r}')
@@ -1394,3 +1427,25 @@ class WriteCirc(Contract):
         hdr = [i for i, x in enumerate(st.log) if x[0] == 'write' and x[1] == 'out' and isinstance(x[2], str)]
         e.prove('C13/circ-write/one-column-header-line-starting-with-#-after-the-metadata-request',
                 len(hdr) == 1 and st.log[hdr[0]][2].startswith('#') and st.log[hdr[0]][2].endswith('\n') and st.log[hdr[0]][2].count('\n') == 1 and (not ts or ts[0] < hdr[0]))
+
+
+@register
+class IsCircRna(Contract):
+    """GVFMetadata.is_circ_rna(): true iff the file was written by parseCIRCexplorer - the one parser whose records are circRNA lines; every other writer
+    emits variant lines, whatever INFO keys its metadata section declares (which reader a file is given to follows from this answer alone)"""
+    path, qualname, props = GMD, 'GVFMetadata.is_circ_rna', ('C13', 'C17')
+
+    def setup(self, I):
+        st = types.SimpleNamespace()
+        st.is_circ_parser = I.e.bool('written_by_parseCIRCexplorer')
+        parser = 'parseCIRCexplorer' if I.e.branch(st.is_circ_parser, 'written by parseCIRCexplorer') else Tok('another_parser')
+        info = types.SimpleNamespace(sym_contains=lambda I2, key: I2.e.bool('info_declares_key'), sym_method=lambda I2, n, a, k: (_ for _ in ()).throw(Unsupported(f'info.{n}')))
+        st.meta = SymObj('GVFMetadata', parser=parser, source=Tok('source'), chrom=Tok('chrom'), info=info, alt={}, additional=None, added_types=[],
+                         reference_index=None, genome_fasta=None, annotation_gtf=None, version=Tok('version'))
+        st.args = [st.meta]
+        self._cur = st
+        return st
+
+    def post_return(self, I, st, ret):
+        from pyvc.core import as_bool
+        I.e.prove('C13/metadata/circRNA-file-iff-written-by-parseCIRCexplorer', as_bool(ret) == st.is_circ_parser)
